@@ -276,14 +276,25 @@ package cdi
 //@        own(c.devices[k].Device) <= a && own(c.devices[k].spec) <= a && own(c.devices[k].spec.Spec) <= a &&
 //@        ListsBefore(&c.devices[k].ContainerEdits, a) && ListsBefore(&c.devices[k].spec.ContainerEdits, a))
 
+// CacheInit: what newCache/configure establish and every operation keeps: the watch object and the directory
+// error map exist.
+//@ pred CacheInit(c *Cache) = c.watch != nil && c.dirErrors != nil
+
+// refreshIfRequired: the body is verified (who is called, the frame, the error it hands back); that the index it
+// leaves behind is well-formed and older than anything allocated later (CacheRep, CacheBefore) is the one clause
+// still taken on trust - it is a property of refresh()'s loops that is not proved yet.
 //@ func (c *Cache) refreshIfRequired(force bool) (refreshed bool, err error)
-//@   requires c != nil
+//@   requires c != nil && CacheInit(c)
 //@   requires excl
-//@   trusted
 //@   typeframe github.com/opencontainers/runtime-spec/specs-go
 //@   preserves github.com/opencontainers/runtime-spec/specs-go, tags.cncf.io/container-device-interface/specs-go
 //@   frametags C04
-//@   ensures CacheRep(c) && CacheBefore(c, allocNow())
+//@   ghostwrites maxP, cnt, first, scanMark
+//@   ensures[assumed] CacheRep(c) && CacheBefore(c, allocNow())
+//@   ensures CacheInit(c)
+//@   ensures[C13] implies(refreshed, ErrInv(c.errors) && (err == nil) == forall(k, string, true, !has(c.errors, k)))
+//@   ensures[C13] implies(!refreshed, err == nil && c.errors == old(c.errors))
+//@   ensures[C13] iff(refreshed, force || (old(c.autoRefresh) && refreshed))
 
 //@ func (e *ContainerEdits) Append(o *ContainerEdits) (r *ContainerEdits)
 //@   modifies e.ContainerEdits if e != nil, e.ContainerEdits.* if e != nil && e.ContainerEdits != nil
@@ -552,6 +563,8 @@ package cdi
 //@        ite(DvAt(dv, k).ContainerEdits.IntelRdt != nil, cast(DvAt(dv, k).ContainerEdits.IntelRdt, int),
 //@        ite(fst[k] && DvAt(dv, k).spec.ContainerEdits.IntelRdt != nil, cast(DvAt(dv, k).spec.ContainerEdits.IntelRdt, int), rdtIn[k])))
 //@ func (c *Cache) InjectDevices(ociSpec *oci.Spec, devices []string) (unresolved []string, err error)
+//@   requires CacheInit(c)
+//@   ghostwrites maxP, cnt, first, scanMark
 //@   ghostwrites opn, opk, opsA, opsB, opsC, opiA, opiB, opiC, opiD, opiE, opiF, opiG, opiH
 //@   requires c != nil
 //@   preserves tags.cncf.io/container-device-interface/specs-go
@@ -636,7 +649,8 @@ package cdi
 //@   loop 1 invariant[only C02.Order] forall(k, 0 <= k && k < #i, trig(dv[k], iff(fst[k], FirstOfSpec(dv, k))))
 //@   assert[only C02.Env] at loop 1 body end: LenEnv(edits) == athead(LenEnv(edits)) + ite(fst[#i - 1], len(DvAt(dv, #i - 1).spec.ContainerEdits.Env), 0) + DevEnvLen(DvAt(dv, #i - 1))
 //@   assert[only C02.Env] at loop 1 body end: offEnv[#i - 1] == athead(LenEnv(edits)) && midEnv[#i - 1] == offEnv[#i - 1] + ite(fst[#i - 1], len(DvAt(dv, #i - 1).spec.ContainerEdits.Env), 0) &&
-//@                        endEnv[#i - 1] == midEnv[#i - 1] + DevEnvLen(DvAt(dv, #i - 1)) && endEnv[#i - 1] == offEnv[#i]
+//@                        endEnv[#i - 1] == midEnv[#i - 1] + DevEnvLen(DvAt(dv, #i - 1)) && endEnv[#i - 1] == offEnv[#i] &&
+//@                        offEnv[#i - 1] <= midEnv[#i - 1] && midEnv[#i - 1] <= endEnv[#i - 1] && athead(LenEnv(edits)) <= LenEnv(edits) && 0 <= athead(LenEnv(edits))
 //@   assert[only C02.Env] at loop 1 body end: forall(p, 0 <= p && p < athead(LenEnv(edits)), trig(pos(edits.Env, p), edits.Env[p] == athead(edits.Env[p])))
 //@   assert[only C02.Env] at loop 1 body end: forall(p, midEnv[#i - 1] <= p && p < endEnv[#i - 1], trig(pos(edits.Env, p),
 //@                        edits.Env[p] == DvAt(dv, #i - 1).ContainerEdits.Env[p - midEnv[#i - 1]]))
@@ -666,7 +680,8 @@ package cdi
 //@                        edits.Env[p] == DvAt(dv, k).ContainerEdits.Env[p - midEnv[k]])))
 //@   assert[only C02.DeviceNodes] at loop 1 body end: LenDeviceNodes(edits) == athead(LenDeviceNodes(edits)) + ite(fst[#i - 1], len(DvAt(dv, #i - 1).spec.ContainerEdits.DeviceNodes), 0) + DevDeviceNodesLen(DvAt(dv, #i - 1))
 //@   assert[only C02.DeviceNodes] at loop 1 body end: offDeviceNodes[#i - 1] == athead(LenDeviceNodes(edits)) && midDeviceNodes[#i - 1] == offDeviceNodes[#i - 1] + ite(fst[#i - 1], len(DvAt(dv, #i - 1).spec.ContainerEdits.DeviceNodes), 0) &&
-//@                        endDeviceNodes[#i - 1] == midDeviceNodes[#i - 1] + DevDeviceNodesLen(DvAt(dv, #i - 1)) && endDeviceNodes[#i - 1] == offDeviceNodes[#i]
+//@                        endDeviceNodes[#i - 1] == midDeviceNodes[#i - 1] + DevDeviceNodesLen(DvAt(dv, #i - 1)) && endDeviceNodes[#i - 1] == offDeviceNodes[#i] &&
+//@                        offDeviceNodes[#i - 1] <= midDeviceNodes[#i - 1] && midDeviceNodes[#i - 1] <= endDeviceNodes[#i - 1] && athead(LenDeviceNodes(edits)) <= LenDeviceNodes(edits) && 0 <= athead(LenDeviceNodes(edits))
 //@   assert[only C02.DeviceNodes] at loop 1 body end: forall(p, 0 <= p && p < athead(LenDeviceNodes(edits)), trig(pos(edits.DeviceNodes, p), edits.DeviceNodes[p] == athead(edits.DeviceNodes[p])))
 //@   assert[only C02.DeviceNodes] at loop 1 body end: forall(p, midDeviceNodes[#i - 1] <= p && p < endDeviceNodes[#i - 1], trig(pos(edits.DeviceNodes, p),
 //@                        edits.DeviceNodes[p] == DvAt(dv, #i - 1).ContainerEdits.DeviceNodes[p - midDeviceNodes[#i - 1]]))
@@ -696,7 +711,8 @@ package cdi
 //@                        edits.DeviceNodes[p] == DvAt(dv, k).ContainerEdits.DeviceNodes[p - midDeviceNodes[k]])))
 //@   assert[only C02.Hooks] at loop 1 body end: LenHooks(edits) == athead(LenHooks(edits)) + ite(fst[#i - 1], len(DvAt(dv, #i - 1).spec.ContainerEdits.Hooks), 0) + DevHooksLen(DvAt(dv, #i - 1))
 //@   assert[only C02.Hooks] at loop 1 body end: offHooks[#i - 1] == athead(LenHooks(edits)) && midHooks[#i - 1] == offHooks[#i - 1] + ite(fst[#i - 1], len(DvAt(dv, #i - 1).spec.ContainerEdits.Hooks), 0) &&
-//@                        endHooks[#i - 1] == midHooks[#i - 1] + DevHooksLen(DvAt(dv, #i - 1)) && endHooks[#i - 1] == offHooks[#i]
+//@                        endHooks[#i - 1] == midHooks[#i - 1] + DevHooksLen(DvAt(dv, #i - 1)) && endHooks[#i - 1] == offHooks[#i] &&
+//@                        offHooks[#i - 1] <= midHooks[#i - 1] && midHooks[#i - 1] <= endHooks[#i - 1] && athead(LenHooks(edits)) <= LenHooks(edits) && 0 <= athead(LenHooks(edits))
 //@   assert[only C02.Hooks] at loop 1 body end: forall(p, 0 <= p && p < athead(LenHooks(edits)), trig(pos(edits.Hooks, p), edits.Hooks[p] == athead(edits.Hooks[p])))
 //@   assert[only C02.Hooks] at loop 1 body end: forall(p, midHooks[#i - 1] <= p && p < endHooks[#i - 1], trig(pos(edits.Hooks, p),
 //@                        edits.Hooks[p] == DvAt(dv, #i - 1).ContainerEdits.Hooks[p - midHooks[#i - 1]]))
@@ -726,7 +742,8 @@ package cdi
 //@                        edits.Hooks[p] == DvAt(dv, k).ContainerEdits.Hooks[p - midHooks[k]])))
 //@   assert[only C02.Mounts] at loop 1 body end: LenMounts(edits) == athead(LenMounts(edits)) + ite(fst[#i - 1], len(DvAt(dv, #i - 1).spec.ContainerEdits.Mounts), 0) + DevMountsLen(DvAt(dv, #i - 1))
 //@   assert[only C02.Mounts] at loop 1 body end: offMounts[#i - 1] == athead(LenMounts(edits)) && midMounts[#i - 1] == offMounts[#i - 1] + ite(fst[#i - 1], len(DvAt(dv, #i - 1).spec.ContainerEdits.Mounts), 0) &&
-//@                        endMounts[#i - 1] == midMounts[#i - 1] + DevMountsLen(DvAt(dv, #i - 1)) && endMounts[#i - 1] == offMounts[#i]
+//@                        endMounts[#i - 1] == midMounts[#i - 1] + DevMountsLen(DvAt(dv, #i - 1)) && endMounts[#i - 1] == offMounts[#i] &&
+//@                        offMounts[#i - 1] <= midMounts[#i - 1] && midMounts[#i - 1] <= endMounts[#i - 1] && athead(LenMounts(edits)) <= LenMounts(edits) && 0 <= athead(LenMounts(edits))
 //@   assert[only C02.Mounts] at loop 1 body end: forall(p, 0 <= p && p < athead(LenMounts(edits)), trig(pos(edits.Mounts, p), edits.Mounts[p] == athead(edits.Mounts[p])))
 //@   assert[only C02.Mounts] at loop 1 body end: forall(p, midMounts[#i - 1] <= p && p < endMounts[#i - 1], trig(pos(edits.Mounts, p),
 //@                        edits.Mounts[p] == DvAt(dv, #i - 1).ContainerEdits.Mounts[p - midMounts[#i - 1]]))
@@ -756,7 +773,8 @@ package cdi
 //@                        edits.Mounts[p] == DvAt(dv, k).ContainerEdits.Mounts[p - midMounts[k]])))
 //@   assert[only C02.AdditionalGIDs] at loop 1 body end: LenAdditionalGIDs(edits) == athead(LenAdditionalGIDs(edits)) + ite(fst[#i - 1], len(DvAt(dv, #i - 1).spec.ContainerEdits.AdditionalGIDs), 0) + DevAdditionalGIDsLen(DvAt(dv, #i - 1))
 //@   assert[only C02.AdditionalGIDs] at loop 1 body end: offAdditionalGIDs[#i - 1] == athead(LenAdditionalGIDs(edits)) && midAdditionalGIDs[#i - 1] == offAdditionalGIDs[#i - 1] + ite(fst[#i - 1], len(DvAt(dv, #i - 1).spec.ContainerEdits.AdditionalGIDs), 0) &&
-//@                        endAdditionalGIDs[#i - 1] == midAdditionalGIDs[#i - 1] + DevAdditionalGIDsLen(DvAt(dv, #i - 1)) && endAdditionalGIDs[#i - 1] == offAdditionalGIDs[#i]
+//@                        endAdditionalGIDs[#i - 1] == midAdditionalGIDs[#i - 1] + DevAdditionalGIDsLen(DvAt(dv, #i - 1)) && endAdditionalGIDs[#i - 1] == offAdditionalGIDs[#i] &&
+//@                        offAdditionalGIDs[#i - 1] <= midAdditionalGIDs[#i - 1] && midAdditionalGIDs[#i - 1] <= endAdditionalGIDs[#i - 1] && athead(LenAdditionalGIDs(edits)) <= LenAdditionalGIDs(edits) && 0 <= athead(LenAdditionalGIDs(edits))
 //@   assert[only C02.AdditionalGIDs] at loop 1 body end: forall(p, 0 <= p && p < athead(LenAdditionalGIDs(edits)), trig(pos(edits.AdditionalGIDs, p), edits.AdditionalGIDs[p] == athead(edits.AdditionalGIDs[p])))
 //@   assert[only C02.AdditionalGIDs] at loop 1 body end: forall(p, midAdditionalGIDs[#i - 1] <= p && p < endAdditionalGIDs[#i - 1], trig(pos(edits.AdditionalGIDs, p),
 //@                        edits.AdditionalGIDs[p] == DvAt(dv, #i - 1).ContainerEdits.AdditionalGIDs[p - midAdditionalGIDs[#i - 1]]))
@@ -879,7 +897,7 @@ package cdi
 //@ guarded watch.{watcher, tracked} by Cache.Mutex
 
 // representation invariant of a Cache built by newCache
-//@ pred CacheRep(c *Cache) = c.watch != nil && CacheWF(c) &&
+//@ pred CacheRep(c *Cache) = c.watch != nil && c.dirErrors != nil && CacheWF(c) &&
 //@        forall(v, string, has(c.specs, v), forall(i, 0 <= i && i < len(c.specs[v]), c.specs[v][i] != nil))
 //@ pred OptionsOK(options []Option) = forall(i, 0 <= i && i < len(options), options[i] != nil)
 
@@ -1149,6 +1167,24 @@ package cdi
 //@   pure
 //@   ensures c != nil && CacheRep(c)
 
+// C13: Refresh reports exactly whether the error map is empty after the (forced or skipped) refresh.
+//@ func (c *Cache) Refresh() (err error)
+//@   requires c != nil && CacheInit(c)
+//@   ghostwrites maxP, cnt, first, scanMark
+//@   ensures[C13] implies(!old(c.autoRefresh), ErrInv(c.errors) && (err == nil) == forall(k, string, true, !has(c.errors, k)))
+//@ func (c *Cache) GetDevice(device string) (r *Device)
+//@   requires c != nil && CacheInit(c)
+//@   ghostwrites maxP, cnt, first, scanMark
+//@   ensures[C01] r == c.devices[device]
+//@ func (c *Cache) ListDevices() (r []string)
+//@   requires c != nil && CacheInit(c)
+//@   ghostwrites maxP, cnt, first, scanMark
+//@ func (c *Cache) ListVendors() (r []string)
+//@   requires c != nil && CacheInit(c)
+//@   ghostwrites maxP, cnt, first, scanMark
+//@ func (c *Cache) GetVendorSpecs(vendor string) (r []*Spec)
+//@   requires c != nil && CacheInit(c)
+//@   ghostwrites maxP, cnt, first, scanMark
 //@ func (c *Cache) Configure(options []Option) (err error)
 //@   requires c != nil && CacheRep(c) && OptionsOK(options)
 //@ func (c *Cache) WriteSpec(raw *cdi.Spec, name string) (err error)
